@@ -79,6 +79,9 @@ func parseOnce(kind string, b []byte) parsed {
 		case "group":
 			p.api = "UnMarshalGroup"
 			p.group, err = types.UnMarshalGroup(b)
+		case "txjson":
+			p.api = "TxJson.ToTransaction"
+			p.tx, err = parseTxJson(b)
 		case "signdata":
 			p.api = "pbToSignData"
 			s := new(middleware_pb.SignData)
